@@ -24,6 +24,9 @@ cache through a temporary file + `os.replace`. -/
 
 /-- `FastaIndex.write_index` / `write_assembly` do not open the final cache names for writing and the class calls `os.replace`. -/
 theorem source_protocol_is_atomic : Gen.cacheWritesAtomic = true := rfl
+/-- the temporary file a writer fills is private to its process (its name contains `os.getpid()` and the final file's name): the model's
+    premise that a file in progress is invisible to, and untouched by, every other process. -/
+theorem source_tmp_is_private : Gen.cacheTmpPrivate = true := rfl
 /- (the strictness of the freshness test in `check_for_index_files` — the comparison the model's `newer` implements — is tied semantically, not
    textually: `Properties/C15Imp.lean`, `check_for_index_files_is_source` / `check_for_index_files_is_model_test`, about the method as translated
    from the current source) -/
